@@ -109,9 +109,17 @@ instance {α : Type} [DecidableEq α] : DecidableEq (Except ReadErr α) := fun a
   | .ok _, .error _ => isFalse (by intro e; cases e)
   | .error _, .ok _ => isFalse (by intro e; cases e)
 
-/-- `BlockMeta::decode` on the last 16 bytes + `verify_checksum` (only when `verify`).
+/-- `verify_stored_checksum(configured, stored, data, checksum)`: the stored type comes from the same
+unprotected bytes as the checksum, so a stored `None` is refused (decode error) when the storage is
+configured to write checksums; otherwise `verify_checksum(stored, ..)`.  `none` = Ok. -/
+def verifyStored (cfg stored : CkType) (data : Bytes) (cksum : Nat) : Option ReadErr :=
+  if stored == .none && cfg != .none then some .decode
+  else if verifyChecksum stored data cksum then none else some .checksum
+
+/-- `BlockMeta::decode` on the last 16 bytes + `verify_stored_checksum` (only when `verify`: a
+fresh load; cache hits are not verified).  `cfg` = `StorageOptions::checksum_type`.
 Returns (block type, payload). -/
-def openBlock (verify : Bool) (block : Bytes) : Except ReadErr (Nat × Bytes) :=
+def openBlockCfg (cfg : CkType) (verify : Bool) (block : Bytes) : Except ReadErr (Nat × Bytes) :=
   if block.length < BLOCK_META_SIZE then .error .decode
   else
     let n := block.length
@@ -123,8 +131,17 @@ def openBlock (verify : Bool) (block : Bytes) : Except ReadErr (Nat × Bytes) :=
     else match CkType.ofCode? ct with
       | none => .error .decode
       | some t =>
-        if verify && !verifyChecksum t (block.take (n - BLOCK_META_CHECKSUM_SIZE)) ck then .error .checksum
-        else .ok (bt, block.take (n - BLOCK_META_SIZE))
+        match (if verify then verifyStored cfg t (block.take (n - BLOCK_META_CHECKSUM_SIZE)) ck else none) with
+        | some e => .error e
+        | none => .ok (bt, block.take (n - BLOCK_META_SIZE))
+
+/-- The read of a database configured with `Crc32` (`StorageOptions::default_for_cli`, tied to the
+source by `Gen.CK_DEFAULT_FOR_CLI`): everything below is stated for it. -/
+def openBlock (verify : Bool) (block : Bytes) : Except ReadErr (Nat × Bytes) := openBlockCfg .crc32 verify block
+
+/-- The read BEFORE the repair of `trailer:cktype-overwrite` (the stored type is trusted); it is also
+the read of a database configured without checksums. -/
+def openBlockTrusting (verify : Bool) (block : Bytes) : Except ReadErr (Nat × Bytes) := openBlockCfg .none verify block
 
 /-! ### Read path with the block cache (`Column::get_block`)
 
@@ -184,10 +201,55 @@ def sealIndexWith (entries : Bytes) (count : Nat) (ck : CkType) (cksum : Nat) : 
 def sealIndex (ck : CkType) (count : Nat) (entries : Bytes) : Bytes :=
   sealIndexWith entries count ck (buildChecksum ck entries)
 
-/-- Footer part of `ColumnIndex::from_bytes`: returns (entry count, entry bytes).  (Slicing
-`data[..len-24]` on a shorter file panics in the implementation: class `decode` here; the
-protobuf decoding of the entries is not modelled.) -/
-def openIndex (data : Bytes) : Except ReadErr (Nat × Bytes) :=
+/-- Length-delimited framing of the entry area (`BlockIndex::decode_length_delimited` in a loop):
+LEB128 length, then that many bytes.  Number of frames if the area is exactly a sequence of
+complete frames, `none` if the last one is cut (fuel = bytes).  The CONTENT of a frame (the
+protobuf fields of a `BlockIndex`) is not modelled. -/
+def varintLen : Nat → Bytes → Option (Nat × Nat)
+  | 0, _ => none
+  | _ + 1, [] => none
+  | fuel + 1, b :: rest =>
+    if b.toNat < 128 then some (b.toNat, 1)
+    else match varintLen fuel rest with
+      | none => none
+      | some (v, used) => some (b.toNat - 128 + 128 * v, used + 1)
+
+def frameCount : Nat → Bytes → Option Nat
+  | 0, bs => if bs.isEmpty then some 0 else none
+  | fuel + 1, bs =>
+    if bs.isEmpty then some 0
+    else match varintLen 10 bs with
+      | none => none
+      | some (len, used) =>
+        if bs.length < used + len then none
+        else (frameCount fuel (bs.drop (used + len))).map (· + 1)
+
+/-- `ColumnIndex::from_bytes(data, cfg)`: footer, `verify_stored_checksum`, then `count` entries
+are decoded and must fill the entry area exactly (the count is outside the checksum; a count larger
+than the area is refused before anything is allocated).  Returns (entry count, entry bytes).
+(Slicing `data[..len-24]` on a shorter file panics in the implementation: class `decode` here.) -/
+def openIndexCfg (cfg : CkType) (data : Bytes) : Except ReadErr (Nat × Bytes) :=
+  if data.length < INDEX_FOOTER_SIZE then .error .decode
+  else
+    let n := data.length
+    let body := data.take (n - 24)
+    let magic := natOfBE ((data.drop (n - 24)).take 4)
+    let count := natOfBE ((data.drop (n - 20)).take 8)
+    let ct := natOfBE ((data.drop (n - 12)).take 4)
+    let ck := natOfBE ((data.drop (n - 8)).take 8)
+    if magic != SECONDARY_INDEX_MAGIC then .error .decode
+    else match CkType.ofCode? ct with
+      | none => .error .decode
+      | some t =>
+        match verifyStored cfg t body ck with
+        | some e => .error e
+        | none => if frameCount body.length body == some count then .ok (count, body) else .error .decode
+
+def openIndex (data : Bytes) : Except ReadErr (Nat × Bytes) := openIndexCfg .crc32 data
+
+/-- `from_bytes` BEFORE the repairs of `idx-footer:cktype-overwrite` and
+`idx:footer-count-unprotected`: stored type trusted, count taken as it is. -/
+def openIndexTrusting (data : Bytes) : Except ReadErr (Nat × Bytes) :=
   if data.length < INDEX_FOOTER_SIZE then .error .decode
   else
     let n := data.length
